@@ -80,6 +80,7 @@ type bsRec struct {
 	Stored    bool     // a loading get whose loaded value was put into the map (new entry or in place)
 	Visited   [][2]int // range: (key,value) pairs visited
 	CachedNow int64    // the store's cached clock when the call started
+	EffCost   int64    // cost the store should account for the value this call writes (explicit, or the cost function's)
 }
 
 type bsCfg struct {
@@ -245,6 +246,13 @@ func (w *bsWorld) apply(a string) bool {
 		if op.Kind == "set" {
 			w.nextV++
 			rec.V = w.nextV
+			rec.EffCost = op.Cost
+			if rec.EffCost == 0 {
+				rec.EffCost = 1
+				if w.cfg.CostFn != nil {
+					rec.EffCost = w.cfg.CostFn(rec.V)
+				}
+			}
 		}
 		rec.NotesAt = len(w.h.notes)
 		loads0 := len(w.loads)
@@ -273,7 +281,11 @@ func (w *bsWorld) apply(a string) bool {
 					rec.LoadCost = w.cfg.LoadCost
 					if rec.LoadCost == 0 {
 						rec.LoadCost = 1
+						if w.cfg.CostFn != nil {
+							rec.LoadCost = w.cfg.CostFn(rec.V)
+						}
 					}
+					rec.EffCost = rec.LoadCost
 					rec.Stored = after != nil && after.value == rec.V
 				}
 				if after != nil && after != before {
